@@ -41,6 +41,10 @@ def correspond(ctx):
 
     for k in RW:
         K.corr_roundtrip(ctx, ADAPTERS[k], ctx.n(40, 400))
+    from ._cube import CUBE, corr_loop
+
+    K.corr_roundtrip(ctx, CUBE, ctx.n(60, 500))
+    corr_loop(ctx, ctx.n(40, 300))
     _fchk.corr_fields(ctx, ctx.n(120, 1200))
     _fchk.corr_objects(ctx, ctx.n(60, 500))
     _fchk.corr_shuffles(ctx)
